@@ -634,6 +634,22 @@ def c04(res):
                 p = list(range(nt)); rng.shuffle(p); perms.append(tuple(p))
             perms.append(tuple(reversed(range(nt))))
         c04_one(res, g, perms, rng, games)
+    # limit_sigma with a mixed outcome inside one team: under a large tau a settled member's sigma rises (and is capped) while a new
+    # member's falls — the cap is per player, whatever the listing order of the members
+    for k in range(size(res, 40, 200)):
+        kind = KINDS[k % 5]
+        beta = core.DEFAULTS["beta"] * rng.choice([1.0, 1.0, 0.01, 30.0])
+        nt = 2 + k % 3
+        teams = []
+        for _ in range(nt):
+            sg = [beta * 10 ** rng.uniform(-2.5, -1.0), beta * rng.uniform(1.0, 3.0), beta * rng.uniform(4.0, 9.0), beta * 10 ** rng.uniform(-2.0, 0.5)]
+            rng.shuffle(sg)
+            teams.append([(rng.gauss(25, 5) * beta / core.DEFAULTS["beta"], s_) for s_ in sg[: rng.randint(2, 4)]])
+        g = make_game(kind, teams, oc=("R", encode_ranks(rng, random_weak_order(rng, nt), "int")), beta=beta, kappa=1e-4,
+                      tau=beta * rng.uniform(0.3, 1.5), ls=(k % 2 == 0), lsopt=(None if k % 2 == 0 else True))
+        res.case(g); res.count("mixed_clamp_games")
+        perms = [tuple(range(nt)), tuple(reversed(range(nt)))]
+        c04_one(res, g, perms, rng, games)
     corr_games(res, games, "correspondence", "C04 rate numbers")
     res.rule = ("each game re-presented under team permutations (all n! for n<=4 quick / n<=5 thorough on half the games, 5 "
                 "sampled otherwise; partial-pairing models: only permutations keeping tied teams in relative order) with the "
